@@ -6,6 +6,7 @@ import (
 	"github.com/spq/pkappa2/internal/index/converters"
 	"github.com/spq/pkappa2/internal/tools/bitmask"
 	"github.com/spq/pkappa2/verifx/mc"
+	"path/filepath"
 	"sort"
 	"strconv"
 	"strings"
@@ -96,6 +97,12 @@ func (w *World) ApplyAPI(call string) error {
 		if err := w.Mgr.UpdateTag(name, manager.UpdateTagOperationSetConverter(cs)); err != nil {
 			res = "error: " + err.Error()
 		}
+	case "convdel":
+		// the converter executable disappears from the converter directory (delivered as the watcher delivers it)
+		w.Mgr.VerifConverterRemoved(filepath.Join(w.ConvDir, arg))
+	case "convrestart":
+		// the converter executable is rewritten: the watcher restarts its processes
+		w.Mgr.VerifConverterWritten(filepath.Join(w.ConvDir, arg))
 	case "config":
 		if err := w.Mgr.SetConfig(manager.Config{AutoInsertLimitToQuery: arg == "on"}); err != nil {
 			res = "error: " + err.Error()
